@@ -353,7 +353,28 @@ func TestC06(t *testing.T) { c06.Rapid(t) }
 var c13 = Check[planCase]{
 	Property: "C13", Stage: "merge-thesaurus",
 	Gen: func(t *rapid.T) planCase {
-		return genPlanCase(t, planGenOpts{synonyms: 2, chunkModes: false})
+		c := genPlanCase(t, planGenOpts{synonyms: 2, chunkModes: false})
+		if gen.Chance(t, "synWide", 8) {
+			// one term of one input with 1024..2050 (synonym, document) pairs
+			var first *spec.MergePlan
+			thes := ""
+			walkPlan(c.Plan, func(n *spec.MergePlan) {
+				if n.IsLeaf() {
+					if first == nil {
+						first = n
+					}
+					for th := range spec.Expect(n.Leaf).Thes {
+						thes = th
+					}
+				}
+			})
+			if thes == "" {
+				thes = "syn"
+			}
+			shape := rapid.SampledFrom([][2]int{{41, 25}, {32, 32}, {27, 38}, {82, 25}, {1025, 1}}).Draw(t, "synWideShape")
+			first.Leaf.SynWide = &spec.SynWideSpec{N: shape[0], Syns: shape[1], Thes: thes, Term: rapid.SampledFrom([]string{"hub", "happy", "zzz"}).Draw(t, "synWideTerm")}
+		}
+		return c
 	},
 	Run: func(c planCase) *Violation {
 		return runPlanCase(c, planCheckOpts{prop: "C13", thes: true})
